@@ -58,7 +58,10 @@ META = {
             "reading of if/cond/and/or/begin/letrec/apply (cond/and/or are prelude MACROS whose expansion is C01/C17's "
             "business) and its builtin table `prims`; the whitespace-normalised "
             "source text is additionally hash-checked on every run (second line of defence, also covers `void`); allocation is modelled as append (no free list/GC: C03); "
-            "numbers are exact integers only; circular structures are outside the property and never generated — except for "
+            "numbers are exact integers only IN THE STORE MODEL and the store streams (c14-sequences-*); the numeric leaf test "
+            "of eqv?/eq?/equal?/memv/member/assv/assoc in every representation (fixnum, bignum, Ratio<i32>, double) is "
+            "covered by the second proof module Proofs/C14Eqv.lean and the stream `eqv-numbers` (see the last paragraph "
+            "of this note); circular structures are outside the property and never generated — except for "
             "`length`, whose repaired definition (fix 08d0569: two cursors + accumulator) has the extra clause "
             "length_cyclic_err / length_total: on every well-formed store a cdr chain that never ends is answered by the "
             "`expected pair` error within |cells|+2 units of fuel, never `diverge` (proof only; cyclic inputs are exercised by "
@@ -108,11 +111,44 @@ META = {
             "a pair or () as first argument); optional range arguments of vector->list / vector-fill! are not "
             "implemented by marwood (arity error) and are not generated; vector-copy's end argument is excluded by the "
             "property; theorems quantify over explicit fuel > list length, the driver passes a fuel derived from the "
-            "heap size.",
+            "heap size. "
+            "NUMBERS UNDER eqv? (fix 22cce75; Num/Eqv.lean, Spec/NumEqv.lean, Lemmas/NumEqv.lean, Proofs/C14Eqv.lean — a "
+            "second proof module because it rests on C09's Cmp.eq_spec, whose lemma file imports single Mathlib modules, "
+            "while Proofs/C14.lean is core-only): Eqv.eqvNum is the number arm of Vm::eqv written arm by arm (two doubles: "
+            "same bits; a double and anything else: #f; two exact numbers: C09's model Cmp.eq of PartialEq for Number, "
+            "representation pair by representation pair); NumSpec.eqvSpec is R7RS 6.1 (same exactness; both exact: same "
+            "value in Q; both inexact: same bit pattern). CLOSED theorems, no guard, for all well-formed numbers in all 16 "
+            "representation pairs: eqvNum_iff_spec (model = spec; the `false` that number.rs answers for an integer outside "
+            "i32 against a Ratio<i32> is correct because a reduced ratio that is an integer lies inside i32 — no "
+            "representation pair deviates), eqvNum_eq_oracle (= the executable oracle eqvSpecB the driver runs), "
+            "eqvNum_trans, eqvNum_representation_independent / eqvNum_exact_value; without any well-formedness hypothesis: "
+            "eqvNum_exactness, eqvNum_mixed, eqvNum_refl (NaN included: same bits), eqvNum_symm, eqvNum_inexact; "
+            "eqvNum_inexact_iff_equal_and_same_sign (Lemmas/NumEqvBits.lean): for two well-formed doubles that are not NaN "
+            "`same bits` is `= holds (C09's model of == on doubles, IEEE equality of the exactly decoded values) and the "
+            "sign bits agree` — the decoder Fl.classify is injective up to 0.0 / -0.0 — which is R7RS's wording "
+            "`numerically equal and indistinguishable` as far as the decoded value and the sign can express it; literal "
+            "witnesses eqv_zero_negzero, eqv_exact_inexact, eqv_half_and_ratio; eqvNumPinned_violates: the arm before the "
+            "fix (numeric equality) answers #t on (2, 2.0), which the spec forbids. Lift: NumSpec.NTree (number | () | pair "
+            "| vector) with NTree.equal parametrised by the leaf test, memTest/assTest for a one-element list: equal_num_leaf, "
+            "equal_num_in_list_and_vector, mem_ass_num (each of the eight forms of the stream reduces to eqvNum x y), "
+            "equal_num_tree_refl, equal_num_leaf_spec; atom_num_eqv_is_eqvNum: the store model's integer leaf test Atom.eqv "
+            "is eqvNum on fixnum/bignum carriers. NOT proved: that Store.eqvCells / Store.equal extended with inexact "
+            "leaves would compute NTree.equal (the store model's VCell.num stays Int; View/Tree.equiv and the 113 theorems "
+            "above are unchanged); the decoding of doubles plays no role here (bit patterns are compared as naturals). "
+            "R7RS leaves (eqv? NaN NaN) unspecified: eqvSpec reads it as `same NaN`, the stream's oracle answers `outside "
+            "nan-nan` for such pairs and accepts any eight booleans (model correspondence still exact: same bits). eq? on "
+            "numbers is unspecified by R7RS: reported as information (stream statistic eq-differs-from-eqv; in marwood eq? "
+            "is the same Rust function as eqv?), judged only by eq? => eqv?. "
+            "Stream eqv-numbers (harness num eqv): operands are injected as self-evaluating constants of the intended "
+            "representation (plus 40 operands produced by the VM's own reader/arithmetic — (/ 4 2) -> ratio 2/1, bignum "
+            "arithmetic that cancels -> bignum 2, -0.0, 1e400 -> +inf … — held in global variables and read back to learn "
+            "their representation); per pair ONE evaluation of (list (eqv? x y) (equal? x y) (equal? (list 1 x) (list 1 y)) "
+            "(equal? (vector x) (vector y)) (if (memv x (list y)) #t #f) (if (member …)) (if (assv x (list (cons y 1))) …) "
+            "(if (assoc …)) (eq? x y) (= x y)) on the real VM.",
     "technique": "Lean 4 proof (heap model vs abstract list/vector views, for all stores and arguments) + randomized "
                  "operation-sequence correspondence model-vs-implementation and reference-store-vs-implementation",
 }
-MODULE = "Marwood.Proofs.C14"
+MODULE = ["Marwood.Proofs.C14", "Marwood.Proofs.C14Eqv"]
 P = "Marwood.Proofs.C14."
 THEOREMS = [P + t for t in """vectorRef_ok vectorRef_err_range vectorRef_err_index vectorSet_ok vectorSet_err_range
 vectorSet_err_index vectorRef_vectorSet vectorFill_ok vectorLength_ok vectorLength_err vector_ok makeVector_ok
@@ -132,7 +168,12 @@ prelude_image_assv prelude_image_assoc prelude_image_anyNull prelude_image_map1 
 prelude_image_forEach prelude_image_caar prelude_image_list equal_agrees_pinned equalB_agrees_pinned
 view_unique leaf_eqv_is_eqvCells leaf_eqv_iff tree_equiv_iff equal_same_view_equiv equal_iff_same_view
 equal_iff_same_view_total equalB_iff_same_view pinned_equal_iff_same_view member_view assoc_view
-ex_view1 ex_view2 ex_view3 exTree_size""".split()]
+ex_view1 ex_view2 ex_view3 exTree_size
+eqvNum_iff_spec eqvNum_eq_oracle eqvNum_exactness eqvNum_refl eqvNum_symm eqvNum_trans
+eqvNum_representation_independent eqvNum_exact_value eqvNum_inexact eqvNum_inexact_iff_equal_and_same_sign
+eqvNum_mixed eqv_zero_negzero
+eqv_exact_inexact eqv_half_and_ratio eqvNumPinned_violates atom_num_eqv_is_eqvNum equal_num_leaf
+equal_num_in_list_and_vector equal_num_tree_refl mem_ass_num equal_num_leaf_spec""".split()]
 
 # sha256[:16] of the whitespace-normalised text of the prelude definitions transcribed in
 # lean/Marwood/Store/Prelude.lean (and ListOps.list for `list`)
@@ -190,7 +231,89 @@ def corpus_cases(prop, binname, profile="release"):
     return out
 
 
+def eqv_core(resp):
+    """the eight specified truth values of an `eqv` answer (tokens with `:` are informational)"""
+    return " ".join(t for t in resp.split(" ") if ":" not in t)
+
+
+def eqv_info(resp, key):
+    for t in resp.split(" "):
+        if t.startswith(key + ":"):
+            return t[len(key) + 1:]
+    return None
+
+
+def eqv_model_equal(req, impl, model):
+    return eqv_core(impl) == model
+
+
+def eqv_spec_equal(req, impl, spec):
+    # R7RS 6.1: the eight forms are decided by eqv? on the two numbers (NumSpec.eqvSpecB); eqv? of two NaNs is
+    # unspecified (`outside nan-nan`: any eight booleans are accepted, but not an error or a panic);
+    # eq? on numbers is unspecified except that eq? => eqv?
+    if not impl.startswith("ok b"):
+        return False
+    if spec.startswith("outside"):
+        return True
+    if eqv_core(impl) != spec:
+        return False
+    return not (eqv_info(impl, "eq") == "b1" and spec.split(" ")[1] == "b0")
+
+
+def eqv_nontrivial(req, impl):
+    # eqv? holds, or the operands are numerically equal (=) and eqv? tells them apart
+    return "b1" in impl
+
+
+def eqv_stats(ctx, stream, cases):
+    st = ctx.streams[stream]
+    kinds = {}
+    classes = {"eqv-true": 0, "eqv-true-other-representation": 0, "numerically-equal-not-eqv": 0,
+               "eq-differs-from-eqv": 0, "nan-nan": 0}
+    for req, impl, _ in cases:
+        t = req.split(" ")
+        k = t[1][:3] + "/" + t[2][:3]
+        kinds[k] = kinds.get(k, 0) + 1
+        holds = impl.startswith("ok b1")
+        if holds:
+            classes["eqv-true"] += 1
+            if t[1] != t[2]:
+                classes["eqv-true-other-representation"] += 1
+        if not holds and eqv_info(impl, "=") == "b1":
+            classes["numerically-equal-not-eqv"] += 1
+        if impl.startswith("ok b") and eqv_info(impl, "eq") != impl.split(" ")[1]:
+            classes["eq-differs-from-eqv"] += 1
+        if t[1].startswith("flo:7ff8") or t[1].startswith("flo:fff8") or t[1] == "flo:7ff0000000000001":
+            if t[2].startswith("flo:7ff8") or t[2].startswith("flo:fff8") or t[2] == "flo:7ff0000000000001":
+                classes["nan-nan"] += 1
+    st["representation_pairs"] = kinds
+    st["classes"] = classes
+
+
+def eqv_stream(ctx):
+    """C14 leaf test on numbers: eqv?/eq?/equal?/memv/member/assv/assoc on pairs of numbers in every representation
+    (fix 22cce75), implementation vs Eqv.eqvNum (model of the number arm of Vm::eqv) and vs NumSpec.eqvSpecB (R7RS 6.1)"""
+    ok, log = build_harness(["num"])
+    if not ok:
+        report_broken(ctx, "harness-build-num", log[-3000:])
+        return
+    corpus = os.path.join(VERIF, "corpus", "C14", "eqv-numbers.txt")
+    if os.path.exists(corpus):
+        cases = gen_cases("num", ["corpus", corpus], ctx.seed)
+        md, sd = correspond(ctx, "eqv-numbers-corpus", cases, eqv_nontrivial, spec_equal=eqv_spec_equal,
+                            model_equal=eqv_model_equal)
+        settle(ctx, md, sd)
+    #                 NI  NR  NF  RATSTEP STRIDE NRANDOM
+    args = ["eqv", 4, 4, 10, 8, 3, 500] if ctx.quick() else ["eqv", 40, 40, 200, 2, 1, 20000]
+    cases = gen_cases("num", args, ctx.seed)
+    md, sd = correspond(ctx, "eqv-numbers", cases, eqv_nontrivial, spec_equal=eqv_spec_equal,
+                        model_equal=eqv_model_equal)
+    eqv_stats(ctx, "eqv-numbers", cases)
+    settle(ctx, md, sd)
+
+
 def streams(ctx):
+    eqv_stream(ctx)
     bad = store_util.check_prelude(PRELUDE_HASHES)
     for name, want, got in bad:
         report_broken(ctx, "prelude-correspondence",
@@ -219,8 +342,16 @@ def streams(ctx):
 
 def run(ctx):
     return standard_run(
-        ctx, MODULE, THEOREMS, ["store"], streams,
-        rule="random operation sequences: 3-7 setup operations (list, cons onto an existing list or a scalar, "
+        ctx, MODULE, THEOREMS, ["store", "num"], streams,
+        rule="eqv-numbers: pairs of numbers in every representation that can carry them — boundary integers (0, 2^31, "
+             "2^32, 2^53, 2^63, 2^64 +-2 and small ones) as fixnum / bignum / integer-valued ratio, boundary ratios, "
+             "doubles (+-0.0, +-1, +-0.5, 0.1, 2^31, 2^32, 2^53, 2^63, 2^64, MAX/MIN, MIN_POSITIVE, subnormals, +-inf "
+             "and their 2-ulp neighbourhoods, four NaN payloads): all pairs of that core palette (every third pair in "
+             "the quick tier); every member of the larger C08/C09 palette (random integers/ratios/doubles included) "
+             "against every other carrier of its value, the five doubles around it, its successor and its negation, "
+             "both orders; random pairs (half of them the same value in another representation); 40x40 operands built "
+             "by the VM's reader and arithmetic; each pair: ten forms on the real VM vs Eqv.eqvNum vs NumSpec.eqvSpecB; "
+             "non-trivial = eqv? or = holds. Store streams: random operation sequences: 3-7 setup operations (list, cons onto an existing list or a scalar, "
              "vector, make-vector, alist, append) followed by 1-12 operations drawn uniformly from the 31 procedures of "
              "the property, arguments mostly of the right kind (85-95%) chosen among pool variables and scalar literals "
              "(symbols, booleans, '(), characters of 1-4 bytes, small integers), indices -1..len+1 plus len+5, 2^63-1, "
